@@ -117,6 +117,9 @@ func c08Deviations() []reqDev {
 	// content types
 	// an empty content type is not a media type: COSE (RFC 9052, enforced by go-cose) refuses it, JWS carries it
 	add("jws-cty-empty", "cty", "jws", func(r *reqSpec) { r.cty = "" })
+	add("jws-cty-without-a-slash(json)", "cty", "jws", func(r *reqSpec) { r.cty = "json" })
+	add("jws-cty-without-a-slash(vnd.cncf.notary.payload.v1+json)", "cty", "jws", func(r *reqSpec) { r.cty = "vnd.cncf.notary.payload.v1+json" })
+	add("cty-with-parameters-and-upper-case", "cty", "", func(r *reqSpec) { r.cty = "Application/Vnd.CNCF.Notary.Payload.V1+JSON; charset=UTF-8; profile=\"x y\"" })
 	add("cty-300-chars", "cty", "", func(r *reqSpec) { r.cty = "application/" + strings.Repeat("x", 288) })
 	add("cty-non-ascii", "cty", "", func(r *reqSpec) { r.cty = "text/plaïn; charset=\"ütf-8\" 😀" })
 	// signing times
